@@ -11,7 +11,17 @@ static const char *SN[] = { "none", "IDLE", "RUNNING", "PAUSED", "STOPPED", "ZOM
 enum { CB_EVAL, CB_START, CB_STOP, CB_EVT, NCB };
 static const char *CBN[] = { "on_eval", "on_start", "on_stop", "on_evt" };
 #define NM 3
-static const char *MNAME[NM] = { "A", "B", "C" };
+static const char *MLABEL[NM] = { "A", "B", "C" };           /* how modules are called in histories */
+static char MNAME_BUF[NM][12] = { "A", "B", "C" };
+static const char *MNAME[NM] = { MNAME_BUF[0], MNAME_BUF[1], MNAME_BUF[2] };   /* registered names: chosen at start-up so that all three share one home slot of the context's module table */
+/* copy of the map's string hash (djb2 + murmur3 finaliser): only used to PICK colliding names; if the library's hash changes the
+ * names merely stop colliding - nothing else depends on it */
+static size_t name_hash(const char *key) { size_t h = (uint32_t)5381; char c; while ((c = *key++)) h = ((h << 5) + h) + c; h ^= h >> 16; h *= 0x85ebca6b; h ^= h >> 13; h *= 0xc2b2ae35; h ^= h >> 16; return h; }
+static void pick_names(void) {
+    static char cand[4096][12]; int first[256]; memset(first, -1, sizeof first);
+    int cnt[256] = {0}, idx[256][3];
+    for (int i = 0; i < 4096; i++) { snprintf(cand[i], sizeof cand[i], "m%03x", i); int s = name_hash(cand[i]) & 255; if (cnt[s] < 3) idx[s][cnt[s]] = i; if (++cnt[s] == 3) { for (int k = 0; k < 3; k++) snprintf(MNAME_BUF[k], sizeof MNAME_BUF[k], "%s", cand[idx[s][k]]); return; } }
+}
 
 /* topics that can be published / are emitted */
 enum { T_T, T_U, T_TX, T_CTX_STARTED, T_CTX_STOPPED, T_CTX_TICK, T_MOD_STARTED, T_MOD_STOPPED, NTOPIC, T_NONE = 250, T_PILL = 251 };
